@@ -367,6 +367,8 @@ func (c *Ctx) resetCase() {
 	c.pendingObs = nil
 	c.forks = nil
 	c.liftGuard = nil
+	c.plainErr = nil
+	c.inInit = false
 }
 
 func runEntry(prog *ssa.Program, cfg *Config, e EntryCfg, tier string, funcByName map[string]*ssa.Function, workers int, solverKind string, timeoutS int, verbose bool, smtlog string) *EntryResult {
@@ -426,6 +428,22 @@ func runEntry(prog *ssa.Program, cfg *Config, e EntryCfg, tier string, funcByNam
 					for {
 						time.Sleep(5 * time.Second)
 						st := append([]string(nil), c.stack...)
+						if c.mergeStat == nil {
+							c.mergeStat = map[string]int{}
+						}
+						type kv struct {
+							k string
+							v int
+						}
+						var top []kv
+						for k, v := range c.mergeStat {
+							top = append(top, kv{k, v})
+						}
+						sort.Slice(top, func(i, j int) bool { return top[i].v > top[j].v })
+						if len(top) > 4 {
+							top = top[:4]
+						}
+						fmt.Fprintf(os.Stderr, "  [merge-terms by object label] %v\n", top)
 						fmt.Fprintf(os.Stderr, "  [progress w0] instr=%d splits=%d forks=%d merges=%d terms=%d stack=%s\n", c.stInstr, c.stSplits, c.stStates, c.stMerges, len(c.tt.all), strings.Join(st, ">"))
 					}
 				}()
@@ -550,6 +568,7 @@ func (c *Ctx) runCase(entry *ssa.Function, presc []int) (cr *CaseResult) {
 		}
 	}()
 	st := &State{heap: &Heap{owner: newOwner()}}
+	c.inInit = true
 	// package initialisers: allow-listed packages, third-party/stdlib ones first
 	var ipkgs []*ssa.Package
 	for _, p := range c.prog.AllPackages() {
@@ -587,6 +606,7 @@ func (c *Ctx) runCase(entry *ssa.Function, presc []int) (cr *CaseResult) {
 	}
 	c.stInstr, c.stBlocks = 0, 0
 	c.trace = nil
+	c.inInit = false
 	c.callFunction(st, entry, nil)
 	return
 }
